@@ -11,6 +11,7 @@ open BM
 
 theorem cutAux_fuel (n : Nat) (hn : n ≠ 0) :
     ∀ (f1 f2 : Nat) (l : Bits), l.length < f1 → l.length < f2 → cutAux n f1 l = cutAux n f2 l := by
+  have hn1 : 1 ≤ n := Nat.pos_of_ne_zero hn
   intro f1
   induction f1 with
   | zero => intro f2 l h1; omega
